@@ -1,6 +1,7 @@
 import Hidi.Basic
 import Hidi.Float
 import Hidi.Engine
+import Hidi.Notes
 import Hidi.Spec
 import Hidi.Proto
 import Hidi.DevEngine
